@@ -1,3 +1,5 @@
+#include <string>
+
 #include <occa/internal/lang/builtins/types.hpp>
 #include <occa/internal/lang/expr/exprNode.hpp>
 #include <occa/internal/lang/token.hpp>
@@ -492,7 +494,9 @@ namespace occa {
       }
 
       if (bitfield >= 0) {
-        pout << " : " << bitfield;
+        // printer only prints strings and single characters: an int would
+        // be converted to the character with that code
+        pout << " : " << std::to_string(bitfield);
       }
     }
 
